@@ -2,9 +2,11 @@
     [listsToUpdate], [update]/[updateIntl]/[finalizeUpdate] (with
     [ensureName]), the copy-back loop of [refreshFiltersArray],
     [refreshFiltersIntl], [filterSetProperties] for a change of name and of
-    the enabled flag (as driven by [handleFilteringSetURL]), and the part of
+    the enabled flag (as driven by [handleFilteringSetURL]), the part of
     [enableFiltersLocked]/[newRuleStorage] that decides which text is in
-    force.  No proofs here.
+    force, and a restart of the process (what the configuration file keeps of
+    a list, [loadFilters]/[load], [deduplicateFilters] in [filtering.New], the
+    engine built by [startDNSServer]).  No proofs here.
 
     A list is identified by its ID (IDs are unique over both arrays, as
     [idGenerator] guarantees).  Its URL is a number naming a source; it
@@ -292,6 +294,68 @@ Section Refresh.
   Definition rebuild_now (st : rstate) : rstate :=
     {| r_block := r_block st; r_allow := r_allow st; r_files := r_files st;
        r_engine := rebuild (r_block st) (r_allow st) (r_files st) |}.
+
+  (** ** A restart of the process
+
+      The old process writes its lists into the configuration file
+      ([WriteDiskConfig], home/config.go), the new one reads them back and runs
+      [filtering.New]: [loadFilters] for the block array, then for the allow
+      array, [deduplicateFilters] on each, [idGenerator.fix] on each; later
+      [startDNSServer] calls [EnableFilters(false)], which builds the engine
+      from the files of the enabled lists.  No file is written. *)
+
+  (** What the configuration file keeps of an entry: ID, URL, name, enabled
+      flag.  [RulesCount] and [LastUpdated] are [yaml:"-"], the checksum is
+      unexported: the new process starts with zeros. *)
+  Definition persisted (f : flist) : flist :=
+    {| f_id := f_id f; f_url := f_url f; f_enabled := f_enabled f; f_name := f_name f; f_count := 0; f_sum := 0 |}.
+
+  (** [load]: a missing file is no error and leaves the entry alone; a file
+      the parser rejects is logged by [loadFilters] and leaves the entry alone;
+      otherwise [ensureName] with the title found in the file, rule count and
+      checksum of the file (and [LastUpdated] := the file's modification time,
+      not modelled, see the head of this file). *)
+  Definition load_file (f : flist) (fs : files) : flist :=
+    match fget (f_id f) fs with
+    | None => f
+    | Some c =>
+        match parse crc c false with
+        | (_, Some _) => f
+        | (st, None) => filled f st
+        end
+    end.
+
+  (** The body of the loop of [loadFilters]: "No need to load a filter that is
+      not enabled".  [all = true] is the variant WITHOUT that check (not the
+      code; kept for the refuted statement in Proofs/RefreshRestart.v).  IDs
+      are never zero here, so no ID is assigned. *)
+  Definition load_entry (all : bool) (fs : files) (f : flist) : flist :=
+    if f_enabled f || all then load_file f fs else f.
+
+  (** [deduplicateFilters]: of the entries of one array with the same URL the
+      first is kept. *)
+  Fixpoint dedup_urls (seen : list N) (ls : list flist) : list flist :=
+    match ls with
+    | [] => []
+    | f :: r =>
+        if existsb (N.eqb (f_url f)) seen then dedup_urls seen r
+        else f :: dedup_urls (f_url f :: seen) r
+    end.
+
+  (** One array through the configuration file, [loadFilters] and
+      [deduplicateFilters].  [idGenerator.fix] gives new IDs to entries whose
+      ID is zero or occurs twice in the array; IDs are unique and not zero
+      here, so it changes nothing (not modelled). *)
+  Definition start_array (all : bool) (fs : files) (ls : list flist) : list flist :=
+    dedup_urls [] (map (fun f => load_entry all fs (persisted f)) ls).
+
+  Definition restart_v (all : bool) (st : rstate) : rstate :=
+    let bl := start_array all (r_files st) (r_block st) in
+    let al := start_array all (r_files st) (r_allow st) in
+    {| r_block := bl; r_allow := al; r_files := r_files st; r_engine := rebuild bl al (r_files st) |}.
+
+  (** The restart as the code does it. *)
+  Definition restart (st : rstate) : rstate := restart_v false st.
 End Refresh.
 
 (** ** Which rule is in force for a probe name: the harness only writes rules
